@@ -11,7 +11,7 @@ RULE = ("cases: spec without soft constraints (fixed grammars with computed repe
         "distinct by (spec, seed).")
 TIMEOUTS = {"quick": (60, 300), "thorough": (240, 2400)}
 MIN = {"quick": {"cases": 60, "nontrivial": 30, "observed": {"shadow_compared": 3000, "shadow_compared_cache_hit": 150, "targeted_histories": 150, "shadow_compared_uncached": 3000, "direct_constraint_histories": 300}},
-       "thorough": {"cases": 1500, "nontrivial": 800, "observed": {"shadow_compared": 300000}}}
+       "thorough": {"cases": 1500, "nontrivial": 800, "observed": {"shadow_compared": 100000}}}
 ASSUMPTIONS = ["suggestions (randomised repairs) are not compared", "specs with soft constraints are excluded (their scores depend on history by design)"]
 
 
